@@ -318,7 +318,8 @@ func (b *builder) artifactType() string {
 
 func (b *builder) descOf(id int) ocispec.Descriptor { return b.g.Nodes[id].Desc }
 
-var platforms = []ocispec.Platform{
+// Platforms are the platforms image configs are drawn from.
+var Platforms = []ocispec.Platform{
 	{OS: "linux", Architecture: "amd64"},
 	{OS: "linux", Architecture: "arm64", Variant: "v8"},
 	{OS: "windows", Architecture: "amd64"},
@@ -372,7 +373,7 @@ func Generate(rng *rand.Rand, o Opts) *DAG {
 		var plat *ocispec.Platform
 		var data []byte
 		if o.Platforms {
-			p := platforms[rng.IntN(len(platforms))]
+			p := Platforms[rng.IntN(len(Platforms))]
 			plat = &p
 			doc := map[string]any{"architecture": p.Architecture, "os": p.OS, "salt": rng.Uint64()}
 			if p.Variant != "" {
@@ -604,8 +605,8 @@ func Generate(rng *rand.Rand, o Opts) *DAG {
 			m := b.g.Nodes[b.pick(ms)]
 			blobID := b.add(&Node{Kind: Blob, Desc: ocispec.Descriptor{MediaType: MTOctet}, Bytes: append([]byte{}, m.Bytes...), Subject: -1})
 			// a manifest that lists the blob twin before an index lists the manifest
-			cfg, _ := newConfig(false)
-			n := &Node{Kind: Manifest, Desc: ocispec.Descriptor{MediaType: MTOCIManifest}, Subject: -1, Succ: []int{cfg, blobID}, ConfigMediaType: b.descOf(cfg).MediaType}
+			cfg, plat := newConfig(false)
+			n := &Node{Kind: Manifest, Desc: ocispec.Descriptor{MediaType: MTOCIManifest}, Subject: -1, Succ: []int{cfg, blobID}, ConfigMediaType: b.descOf(cfg).MediaType, Platform: plat}
 			mm := ocispec.Manifest{MediaType: MTOCIManifest, Config: b.descOf(cfg), Layers: []ocispec.Descriptor{b.descOf(blobID)}}
 			mm.SchemaVersion = 2
 			n.Bytes, _ = json.Marshal(mm)
